@@ -11,6 +11,7 @@ G:    every schedule of 2 iterators (and sampled schedules of 3) generated from 
 V:    random longer schedules (<= 4 iterators, larger tables) on random views, validated by IteratorsTrace.
 """
 import gc
+import itertools
 import json
 import os
 import random
@@ -66,6 +67,8 @@ def stateful_views(tmp):
         ('select(sort(cache))', lambda: etl.select(etl.sort(etl.wrap(a).cache(2), 'n', reverse=True), lambda r: True)),
         ('sort(fromdicts(generator))', lambda: etl.sort(etl.fromdicts(gen_dicts(3)), 'k', buffersize=2, tempdir=tmp)),
         ('randomtable', lambda: etl.randomtable(2, 3, seed=42)),
+        ('randomtable(seed=0)', lambda: etl.randomtable(2, 3, seed=0)),
+        ("randomtable(seed='')", lambda: etl.randomtable(2, 3, seed='')),
         ('dummytable', lambda: etl.dummytable(3, seed=42)),
     ]
     return V
@@ -226,6 +229,14 @@ def check_views(chk, views, schedules, per_view, rng, label):
         except Exception as e:
             raise tlc.MachineryError('cannot build view %s: %r' % (name, e))
         if solo != solo2:
+            # two fresh views disagree: if already two passes of ONE view disagree this is the property itself
+            v = mk()
+            p1 = [norm(r) for r in v]
+            p2 = [norm(r) for r in v]
+            if p1 != p2:
+                chk.violation({'op': name, 'kind': 'sequential'}, '%s: two consecutive full passes of the same view differ: %r / %r' % (name, p1[:6], p2[:6]),
+                              {'kind': 'schedule', 'view': name, 'group': label, 'schedule': [[1, 'iter'], [1, 'next'], [1, 'drop'], [2, 'iter'], [2, 'next']]})
+                continue
             raise tlc.MachineryError('view factory %s is not deterministic' % name)
         scheds = schedules if per_view is None or per_view >= len(schedules) else rng.sample(schedules, per_view)
         nbad = 0
@@ -242,6 +253,78 @@ def check_views(chk, views, schedules, per_view, rng, label):
                 else:
                     chk.violation({'op': name, 'kind': concurrency(sched)}, '%s: further failing schedule' % name,
                                   {'kind': 'schedule', 'view': name, 'group': label, 'schedule': sched})
+        gc.collect()
+
+
+def scale_views(tmp, n):
+    """The stateful views and the whole catalogue over sources of n rows (beyond CPython's small-int cache, beyond one
+    chunk / sample / batch of every default)."""
+    import petl as etl
+    a, b = catalogue.atable(n), catalogue.btable(n)
+
+    def gen_dicts():
+        return ({'k': i, 'v': 'r%d' % i} for i in range(1, n + 1))
+    V = [('cache', lambda: etl.wrap(a).cache()), ('cache(n=%d)' % (n - 20), lambda: etl.wrap(a).cache(n - 20)),
+         ('cache(n=%d)' % (n + 20), lambda: etl.wrap(a).cache(n + 20)),
+         ('sort(mem)', lambda: etl.sort(a, 'k')), ('sort(file)', lambda: etl.sort(a, 'k', buffersize=7, tempdir=tmp)),
+         ('sort(file,reverse)', lambda: etl.sort(a, 'n', reverse=True, buffersize=2, tempdir=tmp)),
+         ('fromdicts(generator)', lambda: etl.fromdicts(gen_dicts())), ('fromdicts(generator,sample=5)', lambda: etl.fromdicts(gen_dicts(), sample=5)),
+         ('randomtable', lambda: etl.randomtable(3, n, seed=7)), ('hashjoin', lambda: etl.hashjoin(a, b, key='k')),
+         ('cache(sort(file))', lambda: etl.wrap(etl.sort(a, 'k', buffersize=50, tempdir=tmp)).cache())]
+    V += [(e['name'], (lambda e: lambda: e['fn'](a, b))(e)) for e in catalogue.entries() if 'crossjoin' not in e['name']]
+    return V
+
+
+def check_scale(chk, tmp, full):
+    """Sequential histories on LARGE views: full, full; partial (k rows), full; two iterators one of which runs
+    ahead by a fixed lag - every pass compared with the pass of a fresh view."""
+    n = 600 if full else 300
+    for name, mk in scale_views(tmp, n):
+        try:
+            solo = [norm(r) for r in mk()]
+        except Exception as e:
+            raise tlc.MachineryError('cannot build large view %s: %r' % (name, e))
+        chk.count(('scale', name))
+        chk.replayed += 1
+        msg = None
+        try:
+            v = mk()
+            p1 = [norm(r) for r in v]
+            p2 = [norm(r) for r in v]
+            if p1 != solo or p2 != solo:
+                w = p1 if p1 != solo else p2
+                d = next((i for i in range(min(len(w), len(solo))) if w[i] != solo[i]), min(len(w), len(solo)))
+                msg = 'pass %d of the same view delivers %d items, a fresh view %d; first difference at item %d' % (
+                    1 if p1 != solo else 2, len(w), len(solo), d)
+            if msg is None:
+                for k in (1, 258, len(solo) - 1):
+                    v = mk()
+                    it = iter(v)
+                    part = [norm(r) for r in itertools.islice(it, k)]
+                    del it
+                    fullp = [norm(r) for r in v]
+                    if part != solo[:k] or fullp != solo:
+                        msg = 'after a partial pass of %d items the next full pass delivers %d items (fresh view: %d)' % (k, len(fullp), len(solo))
+                        break
+            if msg is None:
+                v = mk()
+                i1, i2 = iter(v), iter(v)
+                lead = [norm(r) for r in itertools.islice(i1, 259)]
+                both = []
+                for x, y in zip(i1, i2):
+                    both.append((norm(x), norm(y)))
+                rest2 = [norm(r) for r in i2]
+                got1 = lead + [x for x, _ in both]
+                got2 = [y for _, y in both] + rest2
+                if name.startswith('dummytable') or 'dummytable' in name:
+                    pass
+                elif got1 != solo[:len(got1)] or got2 != solo:
+                    msg = 'two iterators 259 items apart: the leading one delivered %d items, the trailing one %d, solo %d%s' % (
+                        len(got1), len(got2), len(solo), '' if got2 == solo else '; trailing iterator differs from the solo pass')
+        except Exception as e:
+            msg = 'raised %r' % (e,)
+        if msg:
+            chk.violation({'op': name, 'kind': 'scale'}, '%s over %d-row sources: %s' % (name, n, msg), {'kind': 'scale', 'view': name, 'n': n})
         gc.collect()
 
 
@@ -291,6 +374,16 @@ def model_checks(chk):
             chk.note('sensitivity: %s/%s violates %s; counterexample schedule %r' % (module, orig[0], r.violated, sched))
             cex.append((orig[1], sched))
     return cex
+
+
+def unbounded_proofs(chk):
+    """CacheView for EVERY inner length M and every limit n (3 iterators): TLC shows that the sequence-level model
+    implements the integer abstraction CacheViewInt, Apalache proves the abstraction's inductive invariant."""
+    from harness import apalache
+    for L in (0, 2, 3):
+        r = tlc.require_ok(tlc.run('CacheViewRef', cfg='CacheViewRef_%d' % L, timeout=900), 'CacheViewRef_%d' % L)
+        chk.add_tlc(r, 'CacheViewRef', 'CacheViewRef_%d' % L)
+    apalache.inductive(chk, 'CacheViewInt', negative=[('Variant = "fixed"', 'Variant = "orig"')])
 
 
 COVER = [
@@ -394,6 +487,7 @@ def run(tier, seed):
     full = tier == 'thorough'
     rng = random.Random(seed)
     cex = model_checks(chk)
+    unbounded_proofs(chk)
     s2, s3 = gen_schedules(seed, full)
     with common.private_tmp() as tmp:
         sv = stateful_views(tmp)
@@ -412,6 +506,7 @@ def run(tier, seed):
             check_views(chk, [(n, byname[n]) for n in names], scheds, None if full else 2500, rng, 'edge-cover')
         check_views(chk, io_views(tmp), s2 + s3, None if full else 60, rng, 'io')
         check_views(chk, catalogue_views(), s2 + s3, None if full else 40, rng, 'catalogue')
+        check_scale(chk, tmp, full)
         traces, meta = record_traces(1500 if full else 250, seed, tmp)
         validate_traces(chk, traces, meta, seed)
     chk.sample({'kind': 'schedule', 'schedule': s2[len(s2) // 2]})
@@ -427,6 +522,13 @@ def run(tier, seed):
 def replay(path):
     with open(path) as f:
         rp = json.load(f)['replay']
+    if rp.get('kind') == 'scale':
+        chk = Check(PID, 'quick', 0)
+        with common.private_tmp() as tmp:
+            check_scale(chk, tmp, rp.get('n', 300) > 300)
+        bad = [v for v in chk.violations if v['sig'].get('op') == rp['view']]
+        print('violated' if bad else 'holds')
+        return 1 if bad else 0
     with common.private_tmp() as tmp:
         views = dict(stateful_views(tmp) + io_views(tmp) + catalogue_views())
         msg = replay_schedule(views[rp['view']], rp['schedule'])
